@@ -63,7 +63,7 @@ def run(chk, repo, tier):
     npair = 0
     for suite, entry in entry_instances():
         args = ENTRY[entry](M)
-        paths, m = M.paths(suite, entry, args)
+        paths, m = M.paths(suite, entry, args, force_bool=(entry == "KeyValidate"))
         total_paths += len(paths)
         construct = f"{CS}.{suite}.{entry}"
         # ---------------- R1
@@ -194,3 +194,18 @@ def Model_G1(M):
     from ..interp import Interp
     it = Interp(M.world)
     return hp(it.eval_global(M.repo.module(CS), "G1"))
+
+
+MANIFEST = {
+    "level": "other",
+    "technique": "static analysis: path-enumerating abstract interpretation of the verification entry points over "
+                 "symbolic byte strings (exception-escape, must-pass-through guards / typestate at pairing sinks, "
+                 "exact accepted sets of the length predicates)",
+    "text": "Decides for all inputs (not samples) that no raise escapes KeyValidate/Verify/AggregateVerify/"
+            "FastAggregateVerify/PopVerify in any suite, that every pairing argument and every accepting exit is dominated by "
+            "length gate, successful decode, subgroup check and (keys) non-identity check on the same value, and that the length "
+            "predicates accept exactly 48/96-byte bytes objects. This is the shape-of-code part of C04; it is decided on every "
+            "path of the current source.",
+    "note": "Trusted: the checker's model of the Python fragment; decoders/curve functions pure (C20); subgroup_check/is_inf mean "
+            "what C17/C13 establish; implicit exceptions of builtins only for the modelled list.",
+}
